@@ -482,6 +482,13 @@ func runFrameCase(c *FrameCase) *FrameResult {
 				if full && !bytes.Equal(delivered, want) {
 					fail("C04", "roundtrip/"+cf.Kind, fmt.Sprintf("%s: frame %d (%d-byte payload, carrier %s, fragmentation %s) decoded to %d bytes that differ from the payload", cf.Kind, inv, len(f.payload), c.Carrier, c.Frag, len(delivered)), inv)
 				}
+				if full && !bytes.Equal(delivered, want) {
+					// what was delivered is not the frame that was received at this position
+					fail("C08", "not-the-received-frame/"+cf.Kind, fmt.Sprintf("%s: the %d bytes delivered for frame %d are not the bytes of the frame that was received (%d-byte payload)", cf.Kind, len(delivered), inv, len(f.payload)), inv)
+				}
+				if full && ev.Consumed > f.size {
+					fail("C08", "over-read/"+cf.Kind, fmt.Sprintf("%s: frame %d occupies %d bytes but %d bytes were read for it: bytes of the following frame were taken", cf.Kind, inv, f.size, ev.Consumed), inv)
+				}
 				if full && ev.Consumed != f.size {
 					fail("C04", "consumption/"+cf.Kind, fmt.Sprintf("%s: frame %d occupies %d bytes but the decoder consumed %d", cf.Kind, inv, f.size, ev.Consumed), inv)
 				}
